@@ -2,7 +2,7 @@
    evaluation (unfolding equations, frame, call-free expressions have an empty log). *)
 From Coq Require Import List ZArith NArith String Ascii Bool Arith Lia Permutation.
 Import ListNotations.
-From Dagrt Require Import Lang LangProofs Sched Transform TransformSem.
+From Dagrt Require Import Lang LangProofs Sched Transform TransformSem TransformSide.
 
 (* ------------------------------------------------------------------------------------ *)
 (* membership                                                                             *)
@@ -141,7 +141,6 @@ Qed.
 
 Definition getv (s : store) (x : var) : val := match s x with Some v => v | None => VNone end.
 
-Definition is_lazy (o : nop) : bool := match o with NAnd | NOr => true | _ => false end.
 
 Section Evalt.
   Variable F : string -> list val -> list (string * val) -> option (list val).
